@@ -10,14 +10,18 @@ from .containers import RealContainers
 from .refmodels import RefPQ, RefPos
 
 PROP = "C17"
-LEAN_TARGETS = ["Asynkit.Props.C17", "Asynkit.Lemmas.GenEq"]
-PROPS_FILES = ["Asynkit/Props/C17.lean", "Asynkit/Lemmas/GenEq.lean"]
+LEAN_TARGETS = ["Asynkit.Props.C17", "Asynkit.Lemmas.GenEq", "Asynkit.Lemmas.GenEqPQ"]
+PROPS_FILES = ["Asynkit/Props/C17.lean", "Asynkit/Lemmas/GenEq.lean", "Asynkit/Lemmas/GenEqPQ.lean"]
 DRIVERS = ["PQ"]
 TRUSTED = [
     "Lean 4.33 kernel; axioms ⊆ {propext, Classical.choice, Quot.sound} (audited per theorem each run)",
     "hand-written models Asynkit/Model/{Heap,PQ,PosPQ}.lean, tied to src/asynkit/tools.py and "
     "experimental/priority.py by the differential correspondence of this run (lean/Drivers/PQ.lean)",
     "translator/py2lean.py for PriEntry.__lt__ / PriorityValue.__lt__ (Gen definitions proved equal to the model's)",
+    "translator/pq2lean.py + Asynkit/Model/PyRt.lean: every method of tools.PriorityQueue is re-translated "
+    "statement by statement on each run and proved equal to Model/PQ.lean (Lemmas/GenEqPQ.lean), so for "
+    "that class the hand-written model is no longer trusted, only the translator's reading of Python "
+    "(lists, for/break/else, heapq calls, aliasing by index; callables and == on objects are pure)",
     "CPython heapq meets its documented contract (HeapLib.Lawful); the executable model transcribes "
     "heapq's sift loops and is compared array-for-array with the real _pq (layout statistic)",
     "list.sort is a stable sort by __lt__",
